@@ -35,7 +35,8 @@ pub struct Scn {
 
 pub fn gen(rng: &mut Rng) -> Scn {
     let n = rng.range(1, 6) as usize;
-    let touts = [0u64, 10, 10, 25, 25, 50];
+    // u64::MAX stands for Duration::MAX ("no deadline" written as a timeout)
+    let touts = [0u64, 10, 10, 25, 25, 50, 50, u64::MAX];
     let lats = [0u64, 5, 10, 10, 20, 25, 25, 30, 50, 60, 100];
     let fixed_timeout = if rng.chance(1, 2) { Some(*rng.pick(&touts)) } else { None };
     let mut calls = vec![];
@@ -73,8 +74,8 @@ pub fn gen(rng: &mut Rng) -> Scn {
 pub fn valid(s: &Scn) -> bool {
     !s.calls.is_empty()
         && s.calls.len() <= 8
-        && s.calls.iter().all(|c| c.start_ms <= 200 && c.timeout_ms <= 200 && c.beh.lat_ms <= 200 && c.beh.yields <= 4 && !matches!(c.beh.out, Outcome::Panic | Outcome::PanicInCall))
-        && s.fixed_timeout.map(|t| t <= 200).unwrap_or(true)
+        && s.calls.iter().all(|c| c.start_ms <= 200 && (c.timeout_ms <= 200 || c.timeout_ms == u64::MAX) && c.beh.lat_ms <= 200 && c.beh.yields <= 4 && !matches!(c.beh.out, Outcome::Panic | Outcome::PanicInCall))
+        && s.fixed_timeout.map(|t| t <= 200 || t == u64::MAX).unwrap_or(true)
         && s.knobs.jumps.len() <= 3
         && s.knobs.jumps.iter().all(|j| j.0 <= 300 && j.1 <= 200)
 }
@@ -153,7 +154,7 @@ pub fn run(s: &Scn, ctx: &mut RunCtx) -> RunOutput {
         let cancel = scn.cancel_mode;
         match scn.fixed_timeout {
             Some(t) => {
-                let d = Duration::from_millis(t);
+                let d = if t == u64::MAX { Duration::MAX } else { Duration::from_millis(t) };
                 if scn.flag_first {
                     finish_builder!(TimeLimiterLayer::builder().cancel_running_future(cancel).timeout_duration(d))
                 } else {
@@ -162,7 +163,7 @@ pub fn run(s: &Scn, ctx: &mut RunCtx) -> RunOutput {
             }
             None => {
                 let tv = touts2.clone();
-                let f = move |r: &Req| Duration::from_millis(tv[r.id as usize]);
+                let f = move |r: &Req| if tv[r.id as usize] == u64::MAX { Duration::MAX } else { Duration::from_millis(tv[r.id as usize]) };
                 if scn.flag_first {
                     finish_builder!(TimeLimiterLayer::builder().cancel_running_future(cancel).timeout_fn(f))
                 } else {
@@ -185,13 +186,13 @@ pub fn run(s: &Scn, ctx: &mut RunCtx) -> RunOutput {
         }
         let c = &s.calls[i];
         let a = t.first_poll_us;
-        let tout = touts[i] * 1000;
+        let tout = touts[i].saturating_mul(1000);
         let lat = if c.beh.out == Outcome::Never { None } else { Some(c.beh.lat_ms * 1000) };
         let mine: Vec<_> = calls.iter().filter(|x| x.req == i as u32).collect();
         if mine.len() > 1 {
             world::violation("C06.inner_once", "", format!("call {} reached the inner service {} times", i, mine.len()));
         }
-        let deadline = a + tout;
+        let deadline = a.saturating_add(tout);
         match t.status {
             Status::Resolved => {
                 let o = t.out.as_ref().unwrap();
@@ -295,7 +296,10 @@ pub fn run(s: &Scn, ctx: &mut RunCtx) -> RunOutput {
                 world::violation("C06.result", "panic", format!("call {} panicked: {:?}", i, t.panic_msg));
             }
             Status::Unresolved => {
-                world::violation("C06.resolve_instant", "never_resolved", format!("call {} (timeout {}us) never resolved", i, tout));
+                // only a call without a deadline whose inner call never completes may stay open
+                if !(touts[i] == u64::MAX && lat.is_none()) {
+                    world::violation("C06.resolve_instant", "never_resolved", format!("call {} (timeout {}us) never resolved", i, tout));
+                }
             }
             _ => {}
         }
